@@ -9,6 +9,7 @@ import Rare.Gen.C02
 import Rare.Gen.C12
 import Rare.Model.C12
 import Rare.Model.C02Batch
+import Rare.Model.C02Hist
 namespace Rare.Drv.C02
 open Rare Rare.C02 Rare.Proto
 
@@ -116,6 +117,11 @@ def ansOf : Except String KeyAns → String
   and matched by the model regex engine; per match `number:line:indices:extracted` for `{src}|{line}|{1}|{2}`;
 * `tfheap <batch> <buffer> <flushms> <chunks> <lines>` – the same machine looked at directly: do the sent slices have pairwise
   different backing arrays, is every capacity the batch size, what do they read at the end (`number:line`);
+* `ctxhist <posix> <maxbatch> <pattern> <keys> <seq>` – ONE worker's context over a HISTORY of lines from several sources
+  (`seq`: `+`-joined `<hex source>/<line number>/<hex line>`, in the order the single worker gets them), real regex,
+  expression `{k1}|{k2}|…` (decimal group numbers, group names, `@`, `src`, `line`): answered by the context-free
+  `captureOf` of every line (`Model/C02Hist`; `capture_history_is_map` says the worker's loop is that map) with the model
+  regex engine and the wrapper's name table; per match `source/number/line/indices/extracted`;
 * `vis <bytes>` – `color.StrLen`'s visible bytes (count compared with the real `StrLen`);
 * `pipe …`, `regexpipe <n>` – pipeline ops shared with C01;
 * `dissectpipe <groups> <pattern> <input> <batch>` – the dissect matcher with one worker, all matches held
@@ -258,6 +264,36 @@ def handle : List String → String
       let rows := cells.filterMap fun c => c.1.map fun line => s!"{c.2}:{Hex.enc line}"
       s!"ok distinct={if distinct then 1 else 0} caps={if caps then 1 else 0} src=1 lines={if rows.isEmpty then "." else ",".intercalate rows}"
     | _, _ => "bad-args"
+  | ["ctxhist", px, _, p, ks, sq] =>
+    let px := px != "0"
+    let items : Option (List (Bytes × Nat × Bytes)) :=
+      if sq == "." then some [] else (sq.splitOn "+").mapM fun it =>
+        match it.splitOn "/" with
+        | [s, n, l] => match Hex.dec s, n.toNat?, Hex.dec l with
+          | some s, some n, some l => some (s, n, l)
+          | _, _, _ => none
+        | _ => none
+    match Hex.dec p, decHexList ks, items with
+    | some pat, some keys, some items =>
+      if keys.isEmpty then "bad-args" else
+      if items.any (fun it => it.2.2.any (· ≥ 0x80)) then "unmodelled non-ascii" else
+      match Rx.parseEx px pat with
+      | none => "unmodelled syntax"
+      | some pr =>
+        if px && items.any (fun it => totalWork it.2.2 pr.re > 400000) then "unmodelled paths" else
+        let nt := Rare.C16.regexNameTable pr.subexpNames
+        let hs : List LineHit := items.map fun it =>
+          ⟨it.1, it.2.1, if px then Rx.findSubmatchIndexL it.2.2 pr.re pr.ng else Rx.findSubmatchIndex it.2.2 pr.re pr.ng, it.2.2⟩
+        match hs.mapM fun h => (captureOf keys nt h).map fun r => (h, r) with
+        | .error _ => "panic"
+        | .ok l =>
+          if l.any (fun x => match x.2 with | some .json => true | _ => false) then "unmodelled json" else
+          let rows := l.filterMap fun x => match x.2 with
+            | some (.val k) =>
+              some s!"{Hex.enc x.1.source}/{x.1.lineNum}/{Hex.enc x.1.line}/{".".intercalate (x.1.indices.map toString)}/{Hex.enc k}"
+            | _ => none
+          s!"ok read={hs.length} matches={if rows.isEmpty then "." else "+".intercalate rows}"
+    | _, _, _ => "bad-args"
   | ["vis", b] =>
     match Hex.dec b with
     | some bytes =>
